@@ -18,9 +18,11 @@ type Conv struct {
 	Name        string   `json:"name"`
 	Lines       []string `json:"lines"`        // converter-level goverter: lines
 	MethodLines []string `json:"method_lines"` // lines on the single method / variable
-	In, Out     string   `json:"-"`
-	Fault       string   `json:"fault"` // "", directive, methoddirective, signature, conversion, marker, compile
-	Extra       string   `json:"extra,omitempty"`
+	In, Out     string   `json:"in,omitempty"`
+	// RawBody, when set, replaces the interface body / the var specs (it must include the doc lines it wants).
+	RawBody string `json:"raw_body,omitempty"`
+	Fault   string `json:"fault"` // "", directive, methoddirective, signature, conversion, marker, compile
+	Extra   string `json:"extra,omitempty"`
 }
 
 type Project struct {
@@ -72,6 +74,36 @@ type Wide struct {
 	W string
 	X1 int
 	X2 int
+}
+
+type Color int
+
+const (
+	Red Color = iota
+	Green
+	Blue
+)
+
+type Colour int
+
+const (
+	ColourRed Colour = iota
+	ColourGreen
+	ColourBlue
+)
+
+type Deep struct {
+	Items []In
+	ByKey map[string]*In
+	One   *In
+	Tags  []string
+}
+
+type DeepOut struct {
+	Items []Out
+	ByKey map[string]*Out
+	One   *Out
+	Tags  []string
 }
 `
 
@@ -132,6 +164,10 @@ func (p *Project) Tree() scratch.Tree {
 					b.WriteString("// goverter:" + l + "\n")
 				}
 				b.WriteString("var (\n")
+				if c.RawBody != "" {
+					b.WriteString(c.RawBody + ")\n\n" + c.Extra)
+					continue
+				}
 				for _, l := range mlines {
 					b.WriteString("\t// goverter:" + l + "\n")
 				}
@@ -142,6 +178,10 @@ func (p *Project) Tree() scratch.Tree {
 					b.WriteString("// goverter:" + l + "\n")
 				}
 				b.WriteString("type " + c.Name + " interface {\n")
+				if c.RawBody != "" {
+					b.WriteString(c.RawBody + "}\n\n" + c.Extra)
+					continue
+				}
 				for _, l := range mlines {
 					b.WriteString("\t// goverter:" + l + "\n")
 				}
